@@ -46,6 +46,7 @@ MUTANTS = {
         ("dump-reader-drops-multiplicity", "aldy/sam.py", "        muts = {p: [q for q, n in c.items() for _ in range(n)] for p, c in muts.items()}", "        muts = {p: [q for q, n in c.items() for _ in range(min(n, 15))] for p, c in muts.items()}"),
     ],
     "C06": [
+        ("patch:own-c01-mnp-phase-record",),
         ("softclip-consumes-reference", "aldy/sam.py", "            elif op == 4:  # Soft-clip\n                s_start += size", "            elif op == 4:  # Soft-clip\n                s_start += size\n                start += size"),
         ("eq-x-ops-ignored", "aldy/sam.py", "            elif op in [0, 7, 8]:  # M, X and =", "            elif op in [0]:  # M, X and ="),
         ("supplementary-not-skipped", "aldy/sam.py", "                if read.is_supplementary:  # avoid supplementary alignments\n                    continue", "                if False:\n                    continue"),
@@ -81,6 +82,7 @@ MUTANTS = {
         ("cn-low-depth-guard-removed", "aldy/cn.py", "        if total_cov < min_cov / 2.0:", "        if False:"),
     ],
     "C01": [
+        ("patch:own-c01-mnp-phase-record",),
         ("minus-strand-insertion-anchor", "aldy/gene.py", '                        op = f"ins{rev_comp(op[3:])}"\n                        pos += 1', '                        op = f"ins{rev_comp(op[3:])}"'),
         ("deletion-anchor-in-realignment", "aldy/sam.py", "                    p -= 1\n                    o = self.gene[p]", "                    o = self.gene[p]"),
         ("homozygous-postprocessing-one-allele", "aldy/minor.py", "                        if m not in alleles[allele]:\n                            added.append(m)", "                        if m not in alleles[allele] and not solution:\n                            added.append(m)"),
